@@ -185,9 +185,16 @@ def check_repetition(item):
     if bad or not mb:
         return [], False
     probs = []
-    for wrap in ("macro", "alarm"):
+    wraps = ["macro", "alarm"]
+    if "K" not in pgen.kinds_flat(forest):
+        wraps.append("macro-in-block")        # (a Block in a macro body called from inside a block stalls: known C41 finding)
+    for wrap in wraps:
         if wrap == "macro":
             lines = ["Macro: A"] + ["    " + l for l in body] + ["Call macro: A", "Call macro: A", "Mark: z"]
+        elif wrap == "macro-in-block":
+            # first invocation inside a Block (which the body's own End block may cut short), second one at top level
+            lines = (["Macro: A"] + ["    " + l for l in body]
+                     + ["Block: kb", "    Call macro: A", "    Mark: in", "    End block", "Call macro: A", "Mark: z"])
         else:
             lines = ["Alarm: X > 1"] + ["    " + l for l in body]
         run = Run("\n".join(lines), observe=())
@@ -199,6 +206,9 @@ def check_repetition(item):
         if wrap == "macro":
             ok = got == mb + mb + ["z"]
             want = mb + mb + ["z"]
+        elif wrap == "macro-in-block":
+            want = ["..."] + mb + ["z"]
+            ok = got[-(len(mb) + 1):] == mb + ["z"]
         else:
             want = (mb * (len(got) // len(mb) + 2))[:max(len(got), 2 * len(mb))]
             ok = got == want[:len(got)] and len(got) >= 2 * len(mb)
